@@ -154,8 +154,15 @@ def unary_op(o: dict) -> Any:
         from lsst.daf.relation import Identity
 
         return Identity()
+    if k == "cust":
+        from .custom_ops import CLASSES
+
+        return CLASSES[o["f"]]()
     if k == "pjoin":
         # a resolved partial join as the model writes it: fixed leaf, predicate, common columns, side
+        if not o.get("res", True):
+            # common columns not resolved yet: Join(...) as constructed
+            return ops.Join(pred(o["p"])).partial(fixed_leaf(o["fixed"]), is_lhs=bool(o["lhs"]))
         common = frozenset(tags(o["common"]))
         return ops.Join(pred(o["p"]), min_columns=common, max_columns=common).partial(fixed_leaf(o["fixed"]), is_lhs=bool(o["lhs"]))
     raise ValueError(f"bad abstract operation {o!r}")
